@@ -298,7 +298,7 @@ def _md3_attempt(ctx, attempt):
     if mutated or mutated_b:
         c14.report(ctx, signature={"class": "input-mutated", "component": "MD3"}, what="MD3.%s changed its argument" % (mutated or mutated_b))
     for main, sig, what in ((main_a, {"class": "live-reference", "component": "MD3"}, "reference batch / unlabelled samples"),
-                            (main_b, {"class": "md3-first-oracle-sample-alias"}, "labelled samples given to give_oracle_label")):
+                            (main_b, {"class": "live-reference", "component": "MD3", "call": "give_oracle_label"}, "labelled samples given to give_oracle_label")):
         if main != twin:
             i = next((i for i in range(min(len(main), len(twin))) if main[i] != twin[i]), min(len(main), len(twin)))
             c14.report(ctx, signature=sig, what="MD3 trace differs after the caller overwrote what it had passed (%s)" % what,
